@@ -256,7 +256,7 @@ Theorem c06_switch_selector_refuted :
 Proof. exact mod_switch_refuted. Qed.
 Theorem c06_array_size_refuted :
   mod_array_size (CBin BShl (CLit (LU32 1)) (CLit (LU32 32))) = ASize 0 /\
-  mod_array_size (CBin BSub (CLit (LAI 1)) (CLit (LAI 2))) = ASize 4294967295 /\
+  mod_array_size (CBin BSub (CLit (LU32 0)) (CLit (LU32 1))) = AError /\
   mod_array_size (CMath2 MMin (CLit (LAI 2)) (CLit (LAI 3))) = ARuntime /\
   mod_array_size (CBin BDiv (CLit (LAI 4)) (CLit (LAI 0))) = ARuntime.
 Proof. exact mod_array_size_refuted. Qed.
@@ -296,6 +296,12 @@ Proof. exact round_to_f16_subnormal_refuted. Qed.
 Theorem c06_round_to_f16_tie_refuted :
   round_to_f16_bits 1065357312 = 1065361408 /\ ieee_round_to_f16_bits 1065357312 = 1065353216.
 Proof. exact round_to_f16_tie_refuted. Qed.
+
+(* `const c = 7i / (1i / 2i);` is the f32 14.0: the integer evaluator's failure triggers a floating-point re-evaluation *)
+Theorem c06_module_float_fallback_refuted :
+  let e := CBin BDiv (CLit (LI32 7)) (CBin BDiv (CLit (LI32 1)) (CLit (LI32 2))) in
+  mod_const_binary None e = None /\ mod_const_float_fallback e = Some 1096810496 /\ wgsl_eval e = Err RDivZero.
+Proof. exact mod_const_float_fallback_refuted. Qed.
 
 (* ================= non-vacuity ================= *)
 (* a tree exercising every node kind, with a defined const value, that the folder folds *)
